@@ -349,7 +349,7 @@ fn free_after_mount(img: &Image) -> Option<u32> {
     let r = catch_unwind(AssertUnwindSafe(|| {
         let fs: crate::sess::Fs = fatfs::FileSystem::new(dev.handle(), fatfs::FsOptions::new().time_provider(clock)).ok()?;
         let s = fs.stats().ok()?;
-        std::mem::forget(fs);
+        drop(fs);
         Some(s.free_clusters())
     }));
     r.ok().flatten()
